@@ -44,6 +44,6 @@ def step (line : String) : String :=
     | _, _, _, _ => "bad-case"
   | _ => "bad-case"
 
-def main : IO Unit := forEachLine step
+def main (_args : List String) : IO Unit := forEachLine step
 
 end Okane.Drv.C20
